@@ -973,6 +973,10 @@ def run(tier: str, replay: str | None = None):
                 terms.append(concrete_term(case, call, prim))
                 meta.append((ci, ki, "concrete"))
     model_ok = not any("build failed" in b for b in proof.broken)
+    if not model_ok:
+        # a pin / translation obligation / proof is broken: the search for a failing input goes on, and the model
+        # itself is still used when its own files build (only Proofs/ and Properties/ depend on the broken part)
+        model_ok, _ = lib.coq_make(["theories/Overload/Resolve.vo", "theories/Overload/Concrete.vo"], timeout=600)
     model = {}
     concrete = {}
     if model_ok and terms:
@@ -1091,7 +1095,9 @@ def run(tier: str, replay: str | None = None):
                     # attribution: inside the guard of the finding AND the implementation behaves as the faithful model predicts
                     if nun == 1 and union_into_variadic(case, call) and m is not None and same(m, obs):
                         known.append(("C08-union-into-variadic", ci, ki))
-                    elif nun == 1 and union_into_variadic(case, call) and m is None and not model_ok:
+                    elif (nun == 1 and union_into_variadic(case, call) and m is None and not model_ok
+                          and obs[0] == "Err" and want[0] != "Err"):
+                        # the model could not be evaluated; the deviation has the direction the finding predicts
                         undecided += 1  # inside the finding's guard, but the model could not be built: the broken obligation is reported instead
                     else:
                         failing.append((ci, ki) + bad)
